@@ -218,15 +218,22 @@ def vin (item container : V) : PyM V :=
 
 /-! ### indexing, field selection, size -/
 
-/-- `operator.getitem(member, index)`: `ListType.__getitem__` (negative ints are out of range,
-any `int` subclass is an index), `MapType.__getitem__` (key type check, then `dict` lookup).
-String indexing is not modelled (not CEL). -/
-def listAt (xs : List V) (n : Int) : PyM V :=
-  if n < 0 then .error .indexError
-  else match xs[n.toNat]? with
+/-- Python's `list.__getitem__` with an int (primitive): a negative index counts from the end -/
+def pyListGetitem (xs : List V) (n : Int) : PyM V :=
+  let m : Int := if n < 0 then n + xs.length else n
+  if m < 0 then .error .indexError
+  else match xs[m.toNat]? with
     | some v => .ok v
     | none => .error .indexError
 
+/-- `ListType.__getitem__(index)` for an `int` index: `if isinstance(index, int) and index < 0: raise
+IndexError`, then `super().__getitem__(index)` -/
+def listAt (xs : List V) (n : Int) : PyM V :=
+  if n < 0 then .error .indexError else pyListGetitem xs n
+
+/-- `operator.getitem(member, index)`: `ListType.__getitem__` (negative ints are out of range,
+any `int` subclass is an index), `MapType.__getitem__` (key type check, then `dict` lookup).
+String indexing is not modelled (not CEL). -/
 def getitem (c i : V) : PyM V :=
   match c with
   | .list xs =>
@@ -261,7 +268,7 @@ def select (r : Runner) (m : V) (f : List Nat) : PyM V :=
   | .C, _ => .error .attributeError
 
 /-- `function_size` = `IntType(len(container))` -/
-def sizeOf : V → PyM V
+def sizeFn : V → PyM V
   | .str cs => .ok (.int cs.length)
   | .list xs => .ok (.int xs.length)
   | .map kvs => .ok (.int kvs.length)
@@ -618,7 +625,7 @@ def ev (r : Runner) : Env → E → PyM V
           .ok (.pybool !v.isErr)
   | env, .size a => do
       let v ← ev r env a
-      callFn r [v] (sizeOf v)
+      callFn r [v] (sizeFn v)
   | env, .neg a => do
       let v ← ev r env a
       vneg r v
